@@ -10,7 +10,9 @@ pub mod c08;
 pub mod c09;
 pub mod c11;
 pub mod c12;
+pub mod c15;
 pub mod c17;
+pub mod c18;
 pub mod codec;
 pub mod mini;
 
@@ -25,6 +27,8 @@ pub fn main() -> i32 {
     checks.extend(c09::checks());
     checks.extend(c11::checks());
     checks.extend(c12::checks());
+    checks.extend(c15::checks());
     checks.extend(c17::checks());
+    checks.extend(c18::checks());
     vcore::driver("vp-inproc", checks)
 }
